@@ -5,7 +5,6 @@ id=$1; wt=${2:-/tmp/wt_$id}; out=/tmp/confirm_$id.log
 cd $wt || exit 2
 {
 echo "== $id in $wt"
-git stash -q 2>/dev/null; git stash pop -q 2>/dev/null
 git diff --stat -- src include | tail -3
 echo "-- build+suite with patch"
 (make -j8 > /dev/null 2>&1 && timeout 900 make -j8 check 2>&1 | grep -E "^# (PASS|FAIL|ERROR)") 
